@@ -308,6 +308,14 @@ func Run(j *job.Job, s *job.Sink) {
 			want := make([]string, goroutines)
 			for g := range sets {
 				sets[g] = gen(j.Seed, c*goroutines+int64(g))
+				if c%9 == 0 {
+					// every third pipeline round loads very deep texts everywhere at once (400
+					// levels each): whatever bounds depth must count per load, not per process
+					depth := 300 + int(c)%200
+					sets[g].Names = append(sets[g].Names, fmt.Sprintf("zzdeep%d.yang", g))
+					sets[g].Texts = append(sets[g].Texts, fmt.Sprintf("module zzdeep%d {\n  namespace \"urn:zzdeep%d\";\n  prefix zd;\n", g, g)+strings.Repeat("container c {\n", depth)+"leaf bottom { type string; }\n"+strings.Repeat("}\n", depth)+"}\n")
+					s.Count("pipeline_sets_with_a_deep_text", 1)
+				}
 				ms, errs := load(sets[g])
 				want[g] = dump.Set(ms, errs, true)
 			}
